@@ -3,6 +3,5 @@
 set -e
 cd "$(dirname "$0")"
 export GOFLAGS=-mod=mod GOPROXY=off
-if [ -d cmd/tvc ]; then
-  (cd cmd/tvc && go build -o ../../bin/tvc .)
-fi
+mkdir -p bin
+(cd cmd/tvc && go build -o ../../bin/tvc .)
